@@ -35,13 +35,32 @@ type Case struct {
 	QV      int    `json:"qv"` // query variant
 }
 
+// SeqJob: several exchanges on ONE upstream, steered by the environment steps of a behaviour of
+// UdpFallbackSeq.tla: ["start", x] ["cancel", x] ["answer", y].
+type SeqJob struct {
+	ID    int     `json:"id"`
+	N     int     `json:"n"`
+	Steps [][]any `json:"steps"`
+}
+
 type Job struct {
-	Cases     []Case `json:"cases"`
-	Workers   int    `json:"workers"`
-	TimeoutMs int    `json:"timeout_ms"`
+	Seqs      []SeqJob `json:"seqs"`
+	Cases     []Case   `json:"cases"`
+	Workers   int      `json:"workers"`
+	TimeoutMs int      `json:"timeout_ms"`
+}
+
+type XRes struct {
+	X    int    `json:"x"`
+	Kind string `json:"kind"`
+	For  int    `json:"for"`
+	IDOk bool   `json:"idok"`
+	Err  string `json:"err,omitempty"`
 }
 
 type Result struct {
+	Seq          bool             `json:"seq,omitempty"`
+	Results      []XRes           `json:"results,omitempty"`
 	ID           int              `json:"id"`
 	Addr         string           `json:"addr"`
 	Kind         string           `json:"kind"` // udp | tcp | err | other
@@ -273,6 +292,270 @@ func runOnce(c Case, timeout time.Duration, try int) (res Result) {
 	return
 }
 
+// ---------------------------------------------------------------------------------------------
+// several exchanges on one upstream
+// ---------------------------------------------------------------------------------------------
+
+type seqConn struct {
+	id      int
+	c       net.Conn
+	wmu     sync.Mutex
+	pending []pend // queries read, reply not yet written (in order)
+}
+
+type pend struct {
+	x  int
+	id [2]byte
+}
+
+func runSeq(sj SeqJob) (res Result) {
+	t0 := time.Now()
+	defer func() { res.Ms = time.Since(t0).Milliseconds() }()
+	const stepWait = 15 * time.Second
+	rng := rand.New(rand.NewSource(vh.Seed()*104729 + int64(sj.ID)))
+	res = Result{Seq: true, ID: sj.ID, Tries: 1}
+	r := &rec{}
+	r.log(map[string]any{"ev": "Seq"})
+
+	var uc net.PacketConn
+	var tl net.Listener
+	var err error
+	for i := 0; i < 20; i++ {
+		ip := fmt.Sprintf("127.%d.%d.%d", 1+rng.Intn(250), rng.Intn(256), 1+rng.Intn(254))
+		if uc, err = net.ListenPacket("udp", ip+":0"); err != nil {
+			continue
+		}
+		if tl, err = net.Listen("tcp", uc.LocalAddr().String()); err == nil {
+			break
+		}
+		uc.Close()
+		uc = nil
+	}
+	if uc == nil {
+		res.Skipped = fmt.Sprint("bind: ", err)
+		return
+	}
+	defer uc.Close()
+	defer tl.Close()
+	res.Addr = "udp://" + uc.LocalAddr().String()
+
+	n := sj.N
+	qs := make([][]byte, n+1)
+	udpRep := make([][]byte, n+1)
+	tcpRep := make([][]byte, n+1)
+	for x := 1; x <= n; x++ {
+		m := new(dns.Msg)
+		m.SetQuestion(fmt.Sprintf("e%d-s%d.c17.verif.test.", x, sj.ID), []uint16{dns.TypeA, dns.TypeAAAA, dns.TypeTXT}[x%3])
+		m.Id = uint16(rng.Intn(65536))
+		qs[x], _ = m.Pack()
+		udpRep[x] = mkReply(qs[x], 0x8300, len(qs[x])+rng.Intn(200), 0x11)
+		tcpRep[x] = mkReply(qs[x], 0x8180, len(qs[x])+40+rng.Intn(2000), 0x77)
+	}
+	which := func(b []byte) int { // which exchange's query is this (modulo the id)
+		for x := 1; x <= n; x++ {
+			if len(b) >= 2 && bytes.Equal(b[2:], qs[x][2:]) {
+				return x
+			}
+		}
+		return 0
+	}
+
+	var mu sync.Mutex // server state
+	conns := []*seqConn{}
+	seenTcp := make([]chan struct{}, n+1)
+	done := make([]chan struct{}, n+1)
+	for x := 1; x <= n; x++ {
+		seenTcp[x], done[x] = make(chan struct{}), make(chan struct{})
+	}
+
+	go func() { // UDP server: every reply is truncated
+		b := make([]byte, 65536)
+		for {
+			k, from, err := uc.ReadFrom(b)
+			if err != nil {
+				return
+			}
+			if k < 12 {
+				continue
+			}
+			x := which(b[:k])
+			r.log(map[string]any{"ev": "UdpQuery", "x": x, "same": x != 0})
+			if x == 0 {
+				continue
+			}
+			rep := append([]byte(nil), udpRep[x]...)
+			copy(rep[:2], b[:2])
+			time.Sleep(2 * time.Millisecond) // see runOnce
+			r.log(map[string]any{"ev": "UdpReply", "x": x})
+			uc.WriteTo(rep, from)
+		}
+	}()
+	go func() { // TCP server: reads queries, answers when released, in order per connection
+		for {
+			c, err := tl.Accept()
+			if err != nil {
+				return
+			}
+			mu.Lock()
+			sc := &seqConn{id: len(conns) + 1, c: c}
+			conns = append(conns, sc)
+			r.log(map[string]any{"ev": "TcpAccept", "c": sc.id})
+			mu.Unlock()
+			go func() {
+				defer c.Close()
+				for {
+					h := make([]byte, 2)
+					if _, err := io.ReadFull(c, h); err != nil {
+						return
+					}
+					body := make([]byte, binary.BigEndian.Uint16(h))
+					if _, err := io.ReadFull(c, body); err != nil {
+						return
+					}
+					x := which(body)
+					mu.Lock()
+					r.log(map[string]any{"ev": "TcpQuery", "c": sc.id, "x": x, "same": x != 0})
+					if x != 0 {
+						p := pend{x: x}
+						copy(p.id[:], body[:2])
+						sc.pending = append(sc.pending, p)
+						select {
+						case <-seenTcp[x]:
+						default:
+							close(seenTcp[x])
+						}
+					}
+					mu.Unlock()
+				}
+			}()
+		}
+	}()
+	// release the reply to y (and, in order, everything queued before it on the same connection)
+	release := func(y int) bool {
+		mu.Lock()
+		defer mu.Unlock()
+		for _, sc := range conns {
+			for i, p := range sc.pending {
+				if p.x != y {
+					continue
+				}
+				for _, z := range sc.pending[:i+1] {
+					rep := make([]byte, 2+len(tcpRep[z.x]))
+					binary.BigEndian.PutUint16(rep, uint16(len(tcpRep[z.x])))
+					copy(rep[2:], tcpRep[z.x])
+					copy(rep[2:4], z.id[:])
+					r.log(map[string]any{"ev": "TcpReply", "c": sc.id, "y": z.x})
+					sc.c.Write(rep)
+				}
+				sc.pending = sc.pending[i+1:]
+				return true
+			}
+		}
+		return false
+	}
+
+	u, err := upstream.NewUpstream(res.Addr, upstream.Opt{})
+	if err != nil {
+		res.Skipped = "NewUpstream: " + err.Error()
+		return
+	}
+	defer u.Close()
+	cancels := make([]context.CancelFunc, n+1)
+	cancelled := make([]bool, n+1)
+	xres := make([]XRes, n+1)
+	waitCh := func(ch chan struct{}) bool {
+		select {
+		case <-ch:
+			return true
+		case <-time.After(stepWait):
+			return false
+		}
+	}
+	for _, st := range sj.Steps {
+		op, _ := st[0].(string)
+		xf, _ := st[1].(float64)
+		x := int(xf)
+		switch op {
+		case "start":
+			ctx, cancel := context.WithTimeout(context.Background(), 4*stepWait)
+			cancels[x] = cancel
+			defer cancel()
+			r.log(map[string]any{"ev": "Start", "x": x})
+			go func() {
+				defer close(done[x])
+				defer func() {
+					if p := recover(); p != nil {
+						xres[x] = XRes{X: x, Kind: "panic", Err: fmt.Sprint(p)}
+						r.log(map[string]any{"ev": "Panic", "x": x})
+					}
+				}()
+				xr := XRes{X: x}
+				rp, err := u.ExchangeContext(ctx, append([]byte(nil), qs[x]...))
+				switch {
+				case err != nil:
+					xr.Kind, xr.Err, xr.IDOk = "err", err.Error(), true
+				case rp == nil || len(*rp) < 2:
+					xr.Kind = "other"
+				default:
+					b := *rp
+					xr.IDOk = bytes.Equal(b[:2], qs[x][:2])
+					xr.Kind = "other"
+					for z := 1; z <= n; z++ {
+						if bytes.Equal(b[2:], tcpRep[z][2:]) {
+							xr.Kind, xr.For = "tcp", z
+						} else if bytes.Equal(b[2:], udpRep[z][2:]) {
+							xr.Kind, xr.For = "udp", z
+						}
+					}
+				}
+				xres[x] = xr
+				r.log(map[string]any{"ev": "Result", "x": x, "kind": xr.Kind, "for": xr.For, "idok": xr.IDOk})
+			}()
+			select {
+			case <-seenTcp[x]:
+			case <-done[x]:
+			case <-time.After(stepWait):
+				res.Inconclusive = fmt.Sprintf("exchange %d: no TCP query within %v", x, stepWait)
+			}
+		case "cancel":
+			select {
+			case <-done[x]:
+				res.Inconclusive = fmt.Sprintf("exchange %d ended before it could be cancelled", x)
+			default:
+				cancelled[x] = true
+				r.log(map[string]any{"ev": "Cancel", "x": x})
+				cancels[x]()
+				if !waitCh(done[x]) {
+					res.Inconclusive = fmt.Sprintf("cancelled exchange %d did not return", x)
+				}
+			}
+		case "answer":
+			release(x)
+			if !cancelled[x] {
+				if !waitCh(done[x]) {
+					res.Inconclusive = fmt.Sprintf("exchange %d did not return after its reply was sent", x)
+				}
+			} else {
+				time.Sleep(3 * time.Millisecond) // let the client consume the late reply
+			}
+		}
+		if res.Inconclusive != "" {
+			break
+		}
+	}
+	for x := 1; x <= n; x++ {
+		select {
+		case <-done[x]:
+			res.Results = append(res.Results, xres[x])
+		default:
+		}
+	}
+	r.mu.Lock()
+	res.Events = append([]map[string]any(nil), r.ev...)
+	r.mu.Unlock()
+	return
+}
+
 func runCase(c Case, timeout time.Duration) (res Result) {
 	t0 := time.Now()
 	defer func() { res.Ms = time.Since(t0).Milliseconds() }()
@@ -312,6 +595,20 @@ func main() {
 		ch <- c
 	}
 	close(ch)
+	sch := make(chan SeqJob)
+	for i := 0; i < job.Workers; i++ {
+		wg.Add(1)
+		go func() {
+			defer wg.Done()
+			for sj := range sch {
+				vh.Emit(runSeq(sj))
+			}
+		}()
+	}
+	for _, sj := range job.Seqs {
+		sch <- sj
+	}
+	close(sch)
 	wg.Wait()
 	vh.Flush()
 }
